@@ -193,8 +193,10 @@ static void describe_c06(const Plan &p, const RunResult &r, J &line) {
 static Reg reg_c06({"C06", gen_c06, oracle_c06, nullptr, describe_c06});
 
 // ------------------------------------------------------------------ C07
-static const char *C07_ALPHA[12] = {"only_root", "only_tty", "noop", "only_uid:0", "only_uid:1000,0", "exclude_uid:0", "exclude_uid:7,1000", "exclude_spawns_of:sshd", "exclude_spawns_of:cron,bash", "nosuchfilter", "nosuchfilter:arg", ""};
-#define C07_EXH (12 + 144 + 1728)
+#define C07_N 16
+static const char *C07_ALPHA[C07_N] = {"only_root", "only_tty", "noop", "only_uid:0", "only_uid:1000,0", "exclude_uid:0", "exclude_uid:7,1000", "exclude_spawns_of:sshd", "exclude_spawns_of:cron,bash", "nosuchfilter", "nosuchfilter:arg", "",
+    "only_uid", "exclude_uid", "exclude_spawns_of", "only_tty:ignored"};   // bare names: the argument is empty (empty list)
+#define C07_EXH (C07_N + C07_N * C07_N + C07_N * C07_N * C07_N)
 static World c07_world(int wi) {
     World w = base_world();
     static const uint32_t uids[3] = {0, 1000, 4321};
@@ -213,9 +215,9 @@ static Plan gen_c07(uint64_t seed, const std::string &tier) {
     if (idx < (uint64_t)C07_EXH * 12) {
         int wi = (int)(idx % 12); uint64_t ci = idx / 12;
         p.world = c07_world(wi);
-        if (ci < 12) els = {C07_ALPHA[ci]};
-        else if (ci < 156) { ci -= 12; els = {C07_ALPHA[ci / 12], C07_ALPHA[ci % 12]}; }
-        else { ci -= 156; els = {C07_ALPHA[ci / 144], C07_ALPHA[(ci / 12) % 12], C07_ALPHA[ci % 12]}; }
+        if (ci < C07_N) els = {C07_ALPHA[ci]};
+        else if (ci < C07_N + C07_N * C07_N) { ci -= C07_N; els = {C07_ALPHA[ci / C07_N], C07_ALPHA[ci % C07_N]}; }
+        else { ci -= C07_N + C07_N * C07_N; els = {C07_ALPHA[ci / (C07_N * C07_N)], C07_ALPHA[(ci / C07_N) % C07_N], C07_ALPHA[ci % C07_N]}; }
         p.extra.set("exhaustive", true);
     } else {
         p.world = gen_world(r);
@@ -483,6 +485,7 @@ static Plan gen_c08(uint64_t seed, const std::string &tier) {
         std::string v = c08_value(r, opt, w, roundtrip);
         if (r.chance(1, 8)) f += r.chance(1, 2) ? "\n" : "   \t \n";
         if (r.chance(1, 8)) f += "; " + opt + " = commented-out\n";
+        if (r.chance(1, 12)) { static const char *bad[] = {"line without separator\n", "[unterminated section\n", "====\n", "message_format\n", "] stray\n"}; f += bad[r.below(5)]; if (f.find("[unterminated") != std::string::npos) f += "[snoopy]\n"; }
         std::string sep = r.chance(1, 4) ? "=" : r.chance(1, 4) ? ":" : r.chance(1, 2) ? " = " : "\t=   ";
         if (sep == ":" && (v.empty() || opt == "output")) sep = " = ";
         std::string line = (r.chance(1, 12) ? "  " : "") + opt + sep + quote_if_needed(r, v, false);
@@ -562,7 +565,7 @@ static std::string c02_config(Rng &r, const World &w, J &probes) {
     }
     // boundary-directed
     CfgSpec s; std::string extra;
-    switch (r.below(14)) {
+    switch (r.below(15)) {
     case 0: { size_t n = (size_t)(r.chance(1, 2) ? r.range(95, 105) : r.range(100, 900)); s.has_format = true; s.format = "x%{" + std::string(n, r.chance(1, 2) ? 'T' : ':') + "}y"; probes.set("p_tag_ge_100", n >= 98); break; }
     case 1: { long lim = r.chance(1, 2) ? 255 : r.range(255, 700); long len = lim + r.range(-1, 1); s.has_format = true; s.format = std::string((size_t)len, 'L'); s.has_logmax = true; s.logmax = std::to_string(lim); probes.set("p_msg_eq_limit", len == lim); break; }
     case 2: { static const char *v[] = {":", ":file", "::", "file:", ":/x", "devlog:", "a:", "socket:", "socket:" , "file::x"}; s.has_output = true; s.output = v[r.below(10)]; probes.set("p_output_colon", true); break; }
@@ -576,6 +579,15 @@ static std::string c02_config(Rng &r, const World &w, J &probes) {
     case 10: { s.has_chain = true; static const char *v[] = {"only_uid:", "only_uid:,", "exclude_uid:,,,", "only_uid:abc", "exclude_spawns_of:", "exclude_spawns_of:,", ":", ";", ":;:", "only_uid:-1", "only_uid:99999999999999999999", "only_tty:x"}; s.chain = v[r.below(12)]; break; }
     case 11: { s.has_format = true; static const char *v[] = {"%{", "%{}", "%", "%{:", "%{:}", "%{cgroup}", "%{cgroup:}", "%{datetime:%}", "%{datetime:%Ez%Oy%+}", "%{env:}", "%{env:=}", "%{snoopy_literal:%{uid}}"}; s.format = v[r.below(12)]; break; }
     case 12: { s.has_format = true; s.format = "%{datetime:" + std::string((size_t)r.range(30, 200), r.chance(1, 2) ? 'A' : '%') + "}"; break; }
+    case 13: { // error logging switched on while the output itself hits a limit (ident / path / message)
+        s.has_errlog = true; s.errlog = "yes"; s.has_output = true;
+        switch (r.below(4)) {
+        case 0: s.output = "devlog"; s.has_ident = true; s.ident = std::string((size_t)r.range(250, 400), 'I'); break;
+        case 1: s.output = "devlog"; s.has_ident = true; s.ident = "%{env:LONGPATH}"; extra = std::string((size_t)r.range(250, 5000), 'e'); break;
+        case 2: s.output = "file:/log/%{env:LONGPATH}"; extra = std::string((size_t)r.range(4090, 9000), 'p'); break;
+        default: s.output = r.chance(1, 2) ? "devlog" : "stderr"; s.has_logmax = true; s.logmax = "255"; s.has_format = true; s.format = std::string(300, 'M') + "%{cmdline}"; break;
+        }
+        probes.set("p_errlog_at_limit", true); break; }
     default: { s.has_format = true; s.format = "%{domain}|%{ipaddr}|%{systemd_unit_name}|%{snoopy_configure_command}|%{rpname}|%{tty_username}|%{login}|%{cgroup:name=systemd}"; }
     }
     std::string f = s.render(r);
